@@ -216,6 +216,7 @@ pub fn abs_now(now: u64) -> u64 {
 
 impl Sim {
     pub fn new(plan: Plan, dir: PathBuf, verbose: bool) -> Sim {
+        CLOCK_SKEW.store(0, std::sync::atomic::Ordering::SeqCst);
         let pair_cfg = {
                 let f = |k: &str| plan.flags.iter().find_map(|x| x.strip_prefix(k).map(|v| v.to_string()));
                 match (f("pair_event="), f("pair_write="), f("pair_mode="), f("pair_op=")) {
@@ -1367,6 +1368,15 @@ impl Sim {
                 o.on_fault(self, "clock_jump", None);
                 self.oracle = o;
             }
+            Action::ClockSkew { ms } => {
+                self.last_event_kind = "clock_skew".into();
+                self.stat(if ms < 0 { "fault.clock_stepped_backwards" } else { "fault.clock_stepped_forwards" });
+                CLOCK_SKEW.fetch_add(ms, std::sync::atomic::Ordering::SeqCst);
+                set_faketime(abs_now(self.now));
+                let mut o = std::mem::take(&mut self.oracle);
+                o.on_fault(self, "clock_skew", None);
+                self.oracle = o;
+            }
             Action::User(op) => {
                 self.last_event_kind = format!("user.{}", user_op_name(&op));
                 crate::user::execute(self, &op);
@@ -1566,8 +1576,21 @@ impl Sim {
     }
 }
 
+/// The client host's wall clock may be stepped (forwards or backwards) without time passing.
+static CLOCK_SKEW: std::sync::atomic::AtomicI64 = std::sync::atomic::AtomicI64::new(0);
+
+pub fn clock_skew() -> i64 {
+    CLOCK_SKEW.load(std::sync::atomic::Ordering::SeqCst)
+}
+
+/// What the client's wall clock shows at virtual time `now`.
+pub fn wall_now(now: u64) -> u64 {
+    (abs_now(now) as i64 + clock_skew()).max(0) as u64
+}
+
 pub fn set_faketime(ms: u64) {
     let g = ckb_systemtime::faketime();
+    let ms = (ms as i64 + clock_skew()).max(0) as u64;
     g.set_faketime(ms);
     // dropping the guard would disable faketime again
     std::mem::forget(g);
